@@ -705,7 +705,7 @@ class AP:
 
     def is_decl(self):
         j = 1 if self.peek() == "const" else 0
-        return self.peek(j) in ("T", "usize", "Item") and (self.peek(j + 1) in ("*", "&") or IDENT.match(self.peek(j + 1) or ""))
+        return self.peek(j) in ("T", "usize", "Item", "Iterator") and (self.peek(j + 1) in ("*", "&") or IDENT.match(self.peek(j + 1) or ""))
 
     def decl(self):
         if self.peek() == "const":
@@ -729,7 +729,10 @@ class AP:
             if self.peek() == "=":
                 self.eat()
                 init = self.assign()
-            ty = ("item" if ptr else "?") if base == "Item" else ("nat" if base == "usize" else ("ptr" if ptr else "ref" if ref else "val"))
+            if base == "Iterator" and (ptr or ref):
+                raise Refuse(f"{self.fn}: `Iterator* {name}` is outside the translated subset")
+            ty = ("item" if ptr else "?") if base == "Item" else ("iter" if base == "Iterator" else
+                                                                  "nat" if base == "usize" else ("ptr" if ptr else "ref" if ref else "val"))
             ds.append((ty, name, init))
             if self.peek() == ",":
                 self.eat()
@@ -787,7 +790,12 @@ class AP:
             c = self.expr()
             self.eat(")"); self.eat(";")
             return ("dowhile", body, c)
-        if tok in ("while", "switch", "goto", "break", "continue", "try", "throw"):
+        if tok == "while":
+            self.eat("while"); self.eat("(")
+            c = self.expr()
+            self.eat(")")
+            return ("for", None, c, [], self.stmt())
+        if tok in ("switch", "goto", "break", "continue", "try", "throw"):
             raise Refuse(f"{self.fn}: statement `{tok}` is outside the translated subset")
         if self.is_decl():
             d = self.decl()
@@ -926,7 +934,10 @@ class AP:
         while self.peek() in ("->", ".", "[", "++", "--"):
             op = self.eat()
             if op == "->" and self.peek() == "~":
-                self.eat("~"); self.eat("T"); self.eat("("); self.eat(")")
+                self.eat("~")
+                if self.eat() not in ("T", "Item"):
+                    raise Refuse(f"{self.fn}: destructor call of an unknown type")
+                self.eat("("); self.eat(")")
                 a = ("destroy", a)
                 continue
             if op not in (".", "->"):
@@ -1658,6 +1669,225 @@ def generate_sort(repo, out_path):
     return ", ".join(summary) + ", List::sort() wrapper shape checked"
 
 
+
+# ======================================================================================================================
+# Part 4: loops of List.hpp over the one-list heap `Ptr.PList` -> lean/Nstd/Generated/SeqList.lean
+#     List::insert(const Iterator&, const List&) with `list` = the list ITSELF (`l.insert(pos, l)`)      List::clear()
+# `Item*` / `Iterator` locals: non-null address (Nat) or nullable (Option Nat, when initialised from a `prev`/`next` field);
+# assigning a null pointer to a non-null variable is a fault.  Calls of `insert(position, value)` become the heap-model step
+# `Ptr.insert`, which `gen_list_insert` (PropsLink.lean) proves equal to the translated body of that function on every heap
+# that represents a chain.  `list.<member>` is `<member>` (the argument is `*this`).
+class TrL:
+    def __init__(self, fn, lean_name, params, ret):
+        self.fn, self.lean_name, self.params, self.ret = fn, lean_name, params, ret
+        self.n = 0
+        self.nloop = 0
+        self.loops = []
+        self.in_loop = 0
+
+    def fresh(self):
+        self.n += 1
+        return f"t{self.n}"
+
+    @staticmethod
+    def strip_list(e):
+        """`list.x` -> `x` (the argument is `*this`)"""
+        if isinstance(e, tuple):
+            if e[0] == "dot" and e[1] == ("id", "list"):
+                return ("id", e[2])
+            return tuple(TrL.strip_list(x) if isinstance(x, tuple) else x for x in e)
+        return e
+
+    def pure(self, e, env):
+        e = self.strip_list(e)
+        k = e[0]
+        if k == "num" and e[1] == 0:
+            return "none", "ptr"
+        if k == "id":
+            if e[1] in env:
+                return "v_" + e[1], env[e[1]]
+            if e[1] == "freeItem":
+                return "h.free", "ptr"
+            if e[1] == "_end":
+                return "0", "nn"
+        if k == "dot" and e[2] == "item":
+            if e[1] == ("id", "_begin"):
+                return "h.begin", "nn"
+            if e[1] == ("id", "_end"):
+                return "0", "nn"
+            if e[1][0] == "id" and env.get(e[1][1]) == "nn":
+                return "v_" + e[1][1], "nn"
+        if k == "dot" and e[1] == ("id", "endItem") and e[2] == "prev":
+            return "(h.prev 0)", "ptr"
+        if k == "addr" and e[1] == ("id", "endItem"):
+            return "0", "nn"
+        if k == "arrow" and e[2] in ("value", "next", "prev"):
+            t, ty = self.pure(e[1], env)
+            if ty != "nn":
+                raise Refuse(f"{self.fn}: `->{e[2]}` through a pointer that may be null")
+            return (f"(h.val {t})", "val") if e[2] == "value" else (f"(h.{e[2]} {t})", "ptr")
+        raise Refuse(f"{self.fn}: expression `{k}` is outside the translated subset")
+
+    def cond(self, e, env):
+        if e[0] == "bin" and e[1] in ("==", "!="):
+            (ta, tya), (tb, tyb) = self.pure(e[2], env), self.pure(e[3], env)
+            op = "=" if e[1] == "==" else "≠"
+            if tya == tyb and tya in ("nn", "ptr"):
+                return f"{ta} {op} {tb}"
+            if tya == "nn" and tyb == "ptr":
+                return f"some {ta} {op} {tb}"
+            if tya == "ptr" and tyb == "nn":
+                return f"{ta} {op} some {tb}"
+        raise Refuse(f"{self.fn}: condition outside the translated subset (`==` / `!=` on item pointers)")
+
+    def ev(self, e, env, ind, k):
+        """k(term, type, ind)"""
+        if e[0] == "call" and e[1] == "insert" and len(e[2]) == 2:
+            (tp, typ), (tv, tyv) = self.pure(e[2][0], env), self.pure(e[2][1], env)
+            if typ != "nn" or tyv != "val":
+                raise Refuse(f"{self.fn}: `insert({typ}, {tyv})`")
+            x = self.fresh()
+            return [f"{ind}match Ptr.insert h {tp} {tv} with", f"{ind}| none => none", f"{ind}| some (h, {x}) =>"] + k(x, "nn", ind + "  ")
+        t, ty = self.pure(e, env)
+        return k(t, ty, ind)
+
+    def assign(self, lhs, t, ty, env, ind, k):
+        lhs = self.strip_list(lhs)
+        if lhs[0] == "id" and lhs[1] in env:
+            want = env[lhs[1]]
+            if want == ty:
+                return [f"{ind}let v_{lhs[1]} := {t}"] + k(ind)
+            if want == "nn" and ty == "ptr":
+                x = self.fresh()
+                return [f"{ind}match {t} with", f"{ind}| none => none", f"{ind}| some {x} =>", f"{ind}  let v_{lhs[1]} := {x}"] + k(ind + "  ")
+            if want == "ptr" and ty == "nn":
+                return [f"{ind}let v_{lhs[1]} := some {t}"] + k(ind)
+            raise Refuse(f"{self.fn}: a {ty} assigned to the {want} `{lhs[1]}`")
+        opt = lambda: t if ty == "ptr" else f"some {t}" if ty == "nn" else None
+        if lhs == ("id", "freeItem") and opt():
+            return [f"{ind}let h := {{ h with free := {opt()} }}"] + k(ind)
+        if lhs == ("dot", ("id", "_begin"), "item") and ty == "nn":
+            return [f"{ind}let h := {{ h with begin := {t} }}"] + k(ind)
+        if lhs == ("id", "_size") and ty == "ptr" and t == "none":
+            return [f"{ind}let h := {{ h with size := 0 }}"] + k(ind)
+        if lhs == ("dot", ("id", "endItem"), "prev") and opt():
+            return [f"{ind}let h := {{ h with prev := Ptr.set h.prev 0 {opt()} }}"] + k(ind)
+        if lhs[0] == "arrow" and lhs[2] in ("prev", "next") and opt():
+            a, aty = self.pure(lhs[1], env)
+            if aty != "nn":
+                raise Refuse(f"{self.fn}: store through a pointer that may be null")
+            return [f"{ind}let h := {{ h with {lhs[2]} := Ptr.set h.{lhs[2]} {a} {opt()} }}"] + k(ind)
+        raise Refuse(f"{self.fn}: assignment outside the translated subset")
+
+    def run(self, stmts, env, ind, tail):
+        if not stmts:
+            return tail(env, ind)
+        s, rest = stmts[0], stmts[1:]
+        cont = lambda env2, ind2: self.run(rest, env2, ind2, tail)
+        restrict = lambda e2, outer: {n: t for n, t in e2.items() if n in outer}
+        k = s[0]
+        if k == "block":
+            return self.run(list(s[1]), dict(env), ind, lambda env2, ind2: cont(restrict(env2, env), ind2))
+        if k == "decl":
+            def go(j, env2, i):
+                if j == len(s[1]):
+                    return cont(env2, i)
+                ty, name, init = s[1][j]
+                if ty not in ("item", "iter") or init is None or name in env2 or name in ("h", "fuel"):
+                    raise Refuse(f"{self.fn}: declaration of `{name}` is outside the translated subset")
+
+                def after(t, ety, i2):
+                    if ety not in ("nn", "ptr") or (ty == "iter" and ety != "nn"):
+                        raise Refuse(f"{self.fn}: `{name}` initialised with a {ety}")
+                    env3 = dict(env2)
+                    env3[name] = ety
+                    return [f"{i2}let v_{name} := {t}"] + go(j + 1, env3, i2)
+                return self.ev(init, env2, i, after)
+            return go(0, env, ind)
+        if k == "if":
+            c = self.cond(s[1], env)
+            back = lambda env2, ind2: cont(restrict(env2, env), ind2)
+            return ([f"{ind}if {c} then"] + self.run([s[2]], dict(env), ind + "  ", back) +
+                    [f"{ind}else"] + self.run([s[3]], dict(env), ind + "  ", back))
+        if k == "return":
+            if self.in_loop or self.ret is None or s[1] is None:
+                raise Refuse(f"{self.fn}: this `return` is outside the translated subset")
+            t, ty = self.pure(s[1], env)
+            if ty != "nn":
+                raise Refuse(f"{self.fn}: returns a {ty}")
+            return [f"{ind}some (h, {t})"]
+        if k == "expr":
+            e = s[1]
+            if e[0] == "destroy":
+                self.pure(e[1], env)
+                return cont(env, ind)
+            if e[0] == "assign":
+                return self.ev(e[2], env, ind, lambda t, ty, i: self.assign(e[1], t, ty, env, i, lambda i2: cont(env, i2)))
+            if e[0] == "call":
+                return self.ev(e, env, ind, lambda t, ty, i: cont(env, i))
+            raise Refuse(f"{self.fn}: expression statement `{e[0]}`")
+        if k == "for":
+            init, c, steps, body = s[1], s[2], s[3], s[4]
+            if c is None:
+                raise Refuse(f"{self.fn}: loop without a condition")
+
+            def after_init(env1, ind1):
+                self.nloop += 1
+                name = f"{self.lean_name}_loop{self.nloop}"
+                vs = list(env1.items())
+                names = " ".join("v_" + n for n, _ in vs)
+                tup = ", ".join(["h"] + ["v_" + n for n, _ in vs])
+                lty = {"nn": "Nat", "ptr": "Option Nat", "val": "Int"}
+                self.in_loop += 1
+                inner = self.run([body] + [("expr", x) for x in steps], dict(env1), "      ",
+                                 lambda env2, ind2: [f"{ind2}{name} fuel h {names}".rstrip()])
+                self.in_loop -= 1
+                sig = " → ".join(["Nat", "PList"] + [lty[t] for _, t in vs] + ["Option (" + " × ".join(["PList"] + [lty[t] for _, t in vs]) + ")"])
+                self.loops.append([f"def {name} : {sig}", "  | 0, " + ", ".join(["_"] * (1 + len(vs))) + " => none",
+                                   f"  | fuel + 1, {tup} =>", f"    if {self.cond(c, env1)} then"] + inner +
+                                  ["    else", f"      some ({tup})", ""])
+                return ([f"{ind1}match {name} fuel h {names} with", f"{ind1}| none => none", f"{ind1}| some ({tup}) =>"] +
+                        cont(restrict(env1, env), ind1 + "  "))
+            return self.run([init] if init else [], dict(env), ind, after_init)
+        raise Refuse(f"{self.fn}: statement `{k}` is outside the translated subset")
+
+
+def generate_list(repo, out_path):
+    src = strip_comments((Path(repo) / "include/nstd/List.hpp").read_text())
+    parts = ["/- generated by tools/gen_seq.py from include/nstd/List.hpp (loops) - do not edit -/",
+             "import Nstd.Seq.PtrModel", "", "set_option linter.unusedVariables false", "",
+             "namespace Nstd.Generated.SeqList", "open Nstd.Seq", "open Nstd.Seq.Ptr (PList)", ""]
+    summary = []
+    specs = [("List::insert(position, list) [list = *this]", "insertSelf",
+              r"Iterator\s+insert\s*\(\s*const\s+Iterator\s*&\s*position\s*,\s*const\s+List\s*&\s*list\s*\)", [("position", "nn")], "nn"),
+             ("List::clear", "clear", r"void\s+clear\s*\(\s*\)", [], None)]
+    for fn, lean, rx, params, ret in specs:
+        body = extract(src, fn, rx)
+        pz = AP(atokenize(body), fn)
+        stmts = pz.stmts()
+        if pz.peek() is not None:
+            raise Refuse(f"{fn}: trailing tokens")
+        tr = TrL(fn, lean, params, ret)
+
+        def tail(env2, ind2, tr=tr, fn=fn):
+            if tr.ret is not None:
+                raise Refuse(f"{fn}: control reaches the end of a function that returns a value")
+            return [f"{ind2}some h"]
+        lines = tr.run(stmts, {n: t for n, t in params}, "  ", tail)
+        for l in tr.loops:
+            parts += l
+        sig = "".join(f" (v_{n} : Nat)" for n, _ in params)
+        parts += [f"/-- {fn} -/", f"def {lean} (fuel : Nat) (h : PList){sig} : Option ({'PList × Nat' if ret else 'PList'}) :="] + lines + [""]
+        summary.append(f"{fn}:{len(stmts)} stmts/{len(tr.loops)} loop(s)")
+    parts += ["end Nstd.Generated.SeqList", ""]
+    text = "\n".join(parts)
+    out_path = Path(out_path)
+    out_path.parent.mkdir(parents=True, exist_ok=True)
+    if not out_path.exists() or out_path.read_text() != text:
+        out_path.write_text(text)
+    return ", ".join(summary)
+
+
 if __name__ == "__main__":
     repo = sys.argv[1] if len(sys.argv) > 1 else "/repo"
     gen_dir = Path(sys.argv[2]) if len(sys.argv) > 2 else Path(__file__).resolve().parents[1] / "lean/Nstd/Generated"
@@ -1665,6 +1895,7 @@ if __name__ == "__main__":
         print(generate(repo, gen_dir / "SeqLink.lean"))
         print(generate_array(repo, gen_dir / "SeqArr.lean"))
         print(generate_sort(repo, gen_dir / "SeqSort.lean"))
+        print(generate_list(repo, gen_dir / "SeqList.lean"))
     except Refuse as e:
         print("REFUSED:", e)
         sys.exit(1)
